@@ -155,7 +155,6 @@ impl Column {
         let key = self.base_block_key.clone().block(block_id);
 
         let mut block_header = BlockMeta::default();
-        let mut do_verify_checksum = false;
 
         // support multiple I/O backend
         let block =
@@ -184,13 +183,26 @@ impl Column {
                         Ok::<_, TracedStorageError>(data)
                     })
                     .await
-                    .unwrap();
+                    .unwrap()?;
                     // TODO(chi): we should invalidate cache item after a RowSet has been compacted.
                     // self.block_cache.insert(key, block.clone()).await;
 
-                    // need to verify checksum when read from disk
-                    do_verify_checksum = true;
-                    block
+                    // Verify the checksum before the block enters the cache, so that a corrupted
+                    // block is never cached and every read of it fails.
+                    if block.len() < BLOCK_META_SIZE {
+                        return Err(TracedStorageError::decode(
+                            "block is smaller than header size",
+                        ));
+                    }
+                    let mut header = &block[block.len() - BLOCK_META_SIZE..];
+                    let mut block_header = BlockMeta::default();
+                    block_header.decode(&mut header)?;
+                    verify_checksum(
+                        block_header.checksum_type,
+                        &block[..block.len() - BLOCK_META_CHECKSUM_SIZE],
+                        block_header.checksum,
+                    )?;
+                    Ok(block)
                 })
                 .await?;
 
@@ -201,14 +213,6 @@ impl Column {
         }
         let mut header = &block[block.len() - BLOCK_META_SIZE..];
         block_header.decode(&mut header)?;
-
-        if do_verify_checksum {
-            verify_checksum(
-                block_header.checksum_type,
-                &block[..block.len() - BLOCK_META_CHECKSUM_SIZE],
-                block_header.checksum,
-            )?;
-        }
 
         Ok((block_header, block.slice(..block.len() - BLOCK_META_SIZE)))
     }
